@@ -29,7 +29,8 @@ def spawn(scenario, root, tag, fp, skew):
     e["VERIF_FAILPOINT"] = json.dumps(fp)
     outp = root / f"{tag}.json"
     cmd = [env.PY, "-c", f"import time,runpy,sys; time.sleep({skew}); sys.argv=['vp.fpchild',{scenario!r},{str(root / 'cache')!r},{str(root / 'ev.jsonl')!r},{str(outp)!r}]; runpy.run_module('vp.fpchild', run_name='__main__')"]
-    return subprocess.Popen(cmd, cwd=str(env.VERIF), env=e, stdout=subprocess.DEVNULL, stderr=subprocess.PIPE), outp
+    return subprocess.Popen(cmd, cwd=str(env.VERIF), env=e, stdout=subprocess.DEVNULL, stderr=subprocess.PIPE,
+                            start_new_session=True), outp
 
 
 def decide(case, wctx):
@@ -42,8 +43,12 @@ def decide(case, wctx):
         try:
             p.wait(timeout=240)
         except subprocess.TimeoutExpired:
-            p.kill()
+            os.killpg(p.pid, 9)
             return {"verdict": "inconclusive", "case": case, "why": "setup run timed out"}
+        try:
+            os.killpg(p.pid, 9)
+        except OSError:
+            pass
     n0 = sum(1 for e in evlog.read(root / "ev.jsonl") if e["ev"] == "start")
     procs = []
     for i in range(case["nsub"]):
@@ -56,7 +61,10 @@ def decide(case, wctx):
         try:
             p.wait(timeout=max(1, deadline - time.time()))
         except subprocess.TimeoutExpired:
-            p.kill()
+            try:
+                os.killpg(p.pid, 9)
+            except OSError:
+                p.kill()
             timed_out = True
         r = {}
         if outp.exists():
@@ -65,6 +73,10 @@ def decide(case, wctx):
             except ValueError:
                 pass
         r["rc"] = p.returncode
+        try:
+            os.killpg(p.pid, 9)      # pool children of the submitter must not outlive the case
+        except OSError:
+            pass
         if not r.get("out") and not r.get("err"):
             r["stderr"] = (p.stderr.read() or b"").decode(errors="replace")[-300:]
         results.append(r)
